@@ -2,6 +2,8 @@
 import EtkVerif.Driver.Basic
 import EtkVerif.Driver.HexCmd
 import EtkVerif.Driver.AnnCmd
+import EtkVerif.Driver.SmtCmd
+import EtkVerif.Driver.CfgCmd
 open EtkVerif.Driver
 
 def dispatch (line : String) : String :=
@@ -13,6 +15,8 @@ def dispatch (line : String) : String :=
     else if cmd == "hexr" then cmdHexR args
     else if cmd == "hexw" then cmdHexW args
     else if cmd == "ann" then cmdAnn args
+    else if cmd == "smt" then cmdSmt args
+    else if cmd == "cfg" then cmdCfg args
     else s!"bad-op {cmd}"
   | [] => "bad-op"
 
